@@ -486,6 +486,8 @@ func runNoneClassCase(c noneClassCase) *fail {
 		held, op, hh = tLock(90), "Lock", p.handles[90]
 	case "statfs":
 		held, op, hh = tStatfs(100), "StatFS", p.handles[100]
+	case "link": // write-class on the directory /P/kdB only; its target /P/kfX is not ordered after it
+		held, op, hh = tLink(92, 90, "hl"), "Link", p.handles[92]
 	case "read": // read-class calls: only requests the contract does not order after them are tried
 		held, op, hh = tRead(90, 0, 4), "ReadAt", p.handles[90]
 	case "write":
@@ -537,6 +539,11 @@ func runNoneClassCase(c noneClassCase) *fail {
 		// a second Tversion in mid-session (same parameters): handled by the receiver
 		// itself, ordered after nothing
 		other = refcodec.New(refcodec.Tversion, 0, "msize", 64<<10, "version", "9P2000.L.Google.7")
+	case "setattr-link-target":
+		other = tSetattr(70, 1, 0o600, 0) // /P/kfX, the target of the held Link
+	case "link-directory-to-itself":
+		// (a request nobody makes on purpose: it must be answered, whatever the answer)
+		other = tLink(72, 72, "self") // /P/kdA, not the directory of the held Link
 	case "getattr-elsewhere":
 		other = tGetattr(72)
 	case "read-same-file":
@@ -570,12 +577,12 @@ func runNoneClassCase(c noneClassCase) *fail {
 		}
 	}
 	if err != nil {
-		if c.Held == "read" || c.Held == "write" || c.Held == "getattr-held" {
+		if c.Held == "read" || c.Held == "write" || c.Held == "getattr-held" || c.Held == "link" {
 			return failf("request-delayed-by-read-class-call:"+c.Held+":"+c.Other, "%s was not answered while %s was held inside %s, after which the File contract orders only write-class and global calls on that path: %v (%s)", other, held, op, err, desc)
 		}
 		return failf("request-delayed-by-none-class-call:"+c.Held, "%s was not answered while %s was held inside %s, for which the File interface gives no concurrency guarantee: %v (%s)", other, held, op, err, desc)
 	}
-	if rep.Type == refcodec.Rlerror {
+	if rep.Type == refcodec.Rlerror && c.Other != "link-directory-to-itself" {
 		return failf("harness-other", "HARNESS-ERROR %s => %s (%s)", other, rep, desc)
 	}
 	if p.count(50) != 0 {
@@ -775,6 +782,20 @@ func TestC06(t *testing.T) {
 					if h.report("none-class", f, c) {
 						return
 					}
+				}
+			}
+		}
+		for _, other := range []string{"setattr-link-target", "link-directory-to-itself", "getattr", "getattr-elsewhere"} {
+			for _, two := range []bool{false, true} {
+				c := noneClassCase{Native: two, Held: "link", Other: other, TwoConn: two}
+				f := runNoneClassCase(c)
+				h.Case(evid.HashJSON(c), true, "link-held")
+				if f != nil && strings.HasPrefix(f.Sig, "harness-") {
+					t.Errorf("HARNESS-ERROR %s", f.Msg)
+					continue
+				}
+				if h.report("none-class", f, c) {
+					return
 				}
 			}
 		}
